@@ -236,10 +236,15 @@ func genRRSIG(r *vlib.R, now int64) (string, string) {
 		tgt := vlib.Pick(r, []string{"target.example", sub("t", z), "other.test"})
 		addSigned('a', sub("d", z), int(dns.TypeDNAME), 1, tgt, signer)
 		ct := sub("x", tgt)
-		mode := r.Intn(5)
+		mode := r.Intn(8)
 		if mode == 0 {
 			ct = sub("y", tgt) // not what the DNAME synthesises
 			b.tag("dname-wrong-synthesis")
+		}
+		if mode >= 5 { // the relative label and the target's tail are right, the middle is not
+			first := strings.Split(tgt, ".")[0]
+			ct = vlib.Pick(r, []string{sub("x", sub("b.c", tgt)), sub("x", "evil"+first+strings.TrimPrefix(tgt, first)), sub("x", sub("evil", tgt))})
+			b.tag("dname-spliced-synthesis")
 		}
 		cn := b.rrset('a', sub("x", sub("d", z)), int(dns.TypeCNAME), 1, ct)
 		if mode == 1 {
